@@ -358,9 +358,32 @@ func c03Run(c *core.Ctx, idx int) {
 		c.Count("nocap.explicit-arg")
 	}
 	nonest := false
+	insidePolicy := ""
 	if r.Chance(1, 4) {
 		// a permissive push policy must not change anything about capacity
-		s.SetPushPolicy(func(...any) error { return nil })
+		// ("at every moment": the closure itself looks at the stack while the batch is being worked through; a third of
+		// these closures panic once - the caller recovers - after which the limit must hold as before)
+		kcap := m.Cap
+		panicOnce := r.Chance(1, 3)
+		s.SetPushPolicy(func(x ...any) error {
+			if n := s.Len(); kcap > 0 && (n > kcap || s.Avail() != kcap-n || s.IsFull() != (n == kcap)) && insidePolicy == "" {
+				insidePolicy = fmt.Sprintf("seen from inside the push policy: Len=%d Cap=%d Avail=%d IsFull=%v on capacity %d", n, s.Cap(), s.Avail(), s.IsFull(), kcap)
+			}
+			if panicOnce && len(x) == 1 && x[0] == "make the policy panic" {
+				panic(userPanicText)
+			}
+			return nil
+		})
+		if panicOnce {
+			Guard(func() { s.Push("a-value", "make the policy panic", "never reached") })
+			// whether the value accepted before the panic is kept is not specified: follow the code, then judge the limit
+			if s.Len() == m.Len()+1 && (kcap == 0 || m.Len() < kcap) {
+				if v, _ := s.Index(s.Len() - 1); v == "a-value" {
+					m.Items = append(m.Items, "a-value")
+				}
+			}
+			c.Count("policy-panicked-mid-batch")
+		}
 		c.Count("with-permissive-push-policy")
 	} else if r.Chance(1, 4) {
 		// no-nesting concerns Stack values only (the Stack decoded by Marshal-into is then skipped)
@@ -375,6 +398,14 @@ func c03Run(c *core.Ctx, idx int) {
 	}
 	var log []string
 	fulls, shrunkSinceFull, sawtooth, partial := 0, false, 0, false
+	if insidePolicy != "" {
+		c.Violate("inside-policy:capacity", insidePolicy+" on ["+cfg.String()+"]", map[string]any{"cfg": cfg})
+		return
+	}
+	if a, d := ObserveList(s, m); a != "" {
+		c.Violate("after-policy-panic:"+a, "after a push policy panicked in mid-batch (recovered by the caller) on ["+cfg.String()+"]: "+d, map[string]any{"cfg": cfg})
+		return
+	}
 	fail := func(k, aspect, detail string) {
 		c.Violate(k+":"+aspect, fmt.Sprintf("after %s on [%s]: %s", log[len(log)-1], cfg, detail), map[string]any{"cfg": cfg, "ctor_arg": nocapArg, "ops": log})
 	}
@@ -392,6 +423,11 @@ func c03Run(c *core.Ctx, idx int) {
 			}
 		} else {
 			log = append(log, op.String())
+			defer func() {
+				if insidePolicy != "" && len(c.Viol) == 0 {
+					c.Violate("inside-policy:capacity", insidePolicy+" during "+op.String()+" on ["+cfg.String()+"]", map[string]any{"cfg": cfg, "ops": log})
+				}
+			}()
 			if op.K == "Push" && m.Cap > 0 && before < m.Cap && before+len(op.Vals) > m.Cap {
 				partial = true
 				c.Count("partly-fitting-batch")
